@@ -145,3 +145,52 @@ Proof.
   - split; cbn; [constructor; [tauto | constructor]|]. intros h [<-|[]] [Hp|[]]. apply Hne. symmetry. exact Hp.
   - rewrite Hd. discriminate.
 Qed.
+
+(** ** the files that are read are those that the directives name *)
+Inductive reach (fs : fsys) (main_deps : list file) : file -> Prop :=
+| reach_main d : In d main_deps -> reach fs main_deps d
+| reach_dep f ds d : reach fs main_deps f -> deps_of fs f = Some ds -> In d ds -> reach fs main_deps d.
+
+Section Named.
+  Variable fs : fsys.
+  Variable P : file -> Prop.
+  Hypothesis closed : forall f ds d, P f -> deps_of fs f = Some ds -> In d ds -> P d.
+
+  Definition all_named (st : lstate) : Prop := forall m, In m (l_mods st) -> m = prelude_file \/ P m.
+
+  Lemma load_all_named (F : lstate -> file -> (nat * lstate) + lerr) :
+    (forall st f id st', all_named st -> P f -> F st f = inl (id, st') -> all_named st') ->
+    forall ds st st', all_named st -> (forall d, In d ds -> P d) -> load_all F st ds = inl st' -> all_named st'.
+  Proof.
+    intros HF ds. induction ds as [|d ds IH]; intros st st' Hst Hds H; cbn [load_all] in H.
+    - injection H as <-. exact Hst.
+    - destruct (F st d) as [[id st1]|e] eqn:E; [|discriminate].
+      apply (IH st1 st'); [eapply HF; [exact Hst| |exact E]; apply Hds; left; reflexivity | intros x Hx; apply Hds; right; exact Hx | exact H].
+  Qed.
+
+  Lemma find_named fuel : forall st f id st', all_named st -> P f -> find fuel fs st f = inl (id, st') -> all_named st'.
+  Proof.
+    induction fuel as [|fuel IH]; intros st f id st' Hst Hf H; [discriminate|]. cbn [find] in H.
+    destruct (deps_of fs f) as [ds|] eqn:Ed; [|discriminate].
+    destruct (index_of f (l_mods st) 0) as [k|]; [injection H as <- <-; exact Hst|].
+    destruct (existsb (Nat.eqb f) (l_open st)); [discriminate|].
+    destruct (load_all (find fuel fs) {| l_mods := l_mods st; l_open := f :: l_open st |} ds) as [st2|e] eqn:El; [|discriminate].
+    injection H as <- <-.
+    assert (H2 : all_named st2).
+    { eapply (load_all_named (find fuel fs) IH ds); [|intros d Hd; eapply closed; [exact Hf|exact Ed|exact Hd]|exact El]. exact Hst. }
+    intros m Hm. cbn [l_mods] in Hm. apply in_app_or in Hm as [Hm|[<-|[]]]; [apply H2; exact Hm|right; exact Hf].
+  Qed.
+End Named.
+
+(** every file that [load] reads is the prelude or is named by a chain of import/include directives starting in the main
+    program: the set of files read is determined by the directives alone, not by any value or filter *)
+Theorem loaded_files_are_named fs main_deps mods : load fs main_deps = inl mods ->
+  forall m, In m mods -> m = prelude_file \/ reach fs main_deps m.
+Proof.
+  unfold load. destruct (load_all _ _ main_deps) as [st|e] eqn:E; [|discriminate]. intros H. injection H as <-.
+  refine (load_all_named (reach fs main_deps) (find (S (length fs)) fs) _ main_deps _ st _ _ E).
+  - intros st0 f id st' H0 Hf. apply (find_named fs (reach fs main_deps)); [|exact H0|exact Hf].
+    intros f0 ds d Hr Hd Hin. eapply reach_dep; eassumption.
+  - intros m [<-|[]]. left. reflexivity.
+  - intros d Hd. apply reach_main. exact Hd.
+Qed.
